@@ -92,19 +92,24 @@ func vModelSemAcquire(s *semaphore.Weighted, ctx context.Context, n int64) error
 
 func vModelSemRelease(s *semaphore.Weighted, n int64) { vSemHeld -= n }
 
-func h05rMatches(kind int, one, marked bool) bool {
+func h05rMatches(kind int, test int, marked bool) bool {
 	switch kind {
 	case 1: // S/**/one
-		return one
+		return test == 0
 	case 2: // **/(grpc client impl)/*
 		return marked
 	case 3: // **/two
-		return !one
+		return test == 1
 	}
 	return false
 }
 
-func H05r_q() {
+func H05r_q() { h05r(2, 2) }
+
+// thorough: three tests per instance, --max-servers up to 3
+func H05r_t() { h05r(3, 3) }
+
+func h05r(nTests, maxMS int) {
 	allProtocols = []conformancev1.Protocol{1, 2}
 	allHTTPVersions = []conformancev1.HTTPVersion{1, 2}
 	allCodecs = []conformancev1.Codec{1}
@@ -114,9 +119,9 @@ func H05r_q() {
 	vRunHanded = map[string]int{}
 
 	s := &conformancev1.TestSuite{Name: "S"}
-	s.TestCases = []*conformancev1.TestCase{
-		{Request: &conformancev1.ClientCompatRequest{TestName: "one", StreamType: 1}},
-		{Request: &conformancev1.ClientCompatRequest{TestName: "two", StreamType: 1}},
+	tnames := [3]string{"one", "two", "three"}
+	for i := 0; i < nTests; i++ {
+		s.TestCases = append(s.TestCases, &conformancev1.TestCase{Request: &conformancev1.ClientCompatRequest{TestName: tnames[i], StreamType: 1}})
 	}
 	suites := map[string]*conformancev1.TestSuite{"f.yaml": s}
 	// two server instances: gRPC over HTTP/2 (which the gRPC peers support) and Connect over HTTP/1.1 (which they do not)
@@ -138,7 +143,7 @@ func H05r_q() {
 	}
 	runT, skipT := mk("run"), mk("skip")
 	runKind, skipKind := vInt("run", 0, 3), vInt("skip", 0, 3)
-	maxServers := vInt("maxServers", 1, 2)
+	maxServers := vInt("maxServers", 1, maxMS)
 	flags := &Flags{ServerCommand: []string{"/nonexistent/verif-no-such-server"}, MaxServers: uint(maxServers), Parallelism: 1}
 	rec := &vRecPrinter{}
 
@@ -147,24 +152,31 @@ func H05r_q() {
 	if err != nil || results == nil {
 		return
 	}
-	selected := func(grpcInst, one, marked bool) bool {
+	selected := func(grpcInst bool, test int, marked bool) bool {
 		if marked && !grpcInst {
 			return false // the gRPC peers do not support Connect over HTTP/1.1: no such permutation exists
 		}
-		return (runKind == 0 || h05rMatches(runKind, one, marked)) && !(skipKind != 0 && h05rMatches(skipKind, one, marked))
+		return (runKind == 0 || h05rMatches(runKind, test, marked)) && !(skipKind != 0 && h05rMatches(skipKind, test, marked))
 	}
 	want := 0
-	for k := 0; k < 8; k++ {
-		if selected(k&1 != 0, k&2 != 0, k&4 != 0) {
-			want++
+	for k := 0; k < 4; k++ {
+		for t := 0; t < nTests; t++ {
+			if selected(k&1 != 0, t, k&2 != 0) {
+				want++
+			}
 		}
 	}
 	seen := 0
 	for name, o := range results.outcomes {
 		grpcInst := strings.Contains(name, "HTTPVersion:2/")
-		one := strings.HasSuffix(name, "/one")
+		test := 2
+		if strings.HasSuffix(name, "/one") {
+			test = 0
+		} else if strings.HasSuffix(name, "/two") {
+			test = 1
+		}
 		marked := strings.Contains(name, "/(grpc client impl)/")
-		vAssert(selected(grpcInst, one, marked), "a permutation that is not selected (run/skip filter; gRPC-peer support) is never handed to a batch")
+		vAssert(selected(grpcInst, test, marked), "a permutation that is not selected (run/skip filter; gRPC-peer support) is never handed to a batch")
 		vAssert(o.setupError, "a case whose server could not be started is recorded as a setup failure")
 		seen++
 	}
